@@ -68,7 +68,7 @@ func Table(t *rapid.T, name string, timed, static bool, keyKind string) StreamTa
 		}
 		return row
 	}
-	msgs, net := mon.Changelog(t, name, mon.ChangelogOpts{Timed: timed, NoRetract: static}, newRow)
+	msgs, net := mon.Changelog(t, name, mon.ChangelogOpts{Timed: timed, NoRetract: static, Zones: true}, newRow)
 	spec.Rows = net
 	return StreamTable{Spec: spec, Msgs: msgs, Timed: timed, Static: static}
 }
